@@ -20,6 +20,8 @@ def gen_trees(rng):
         for _ in range(rng.choice([1, 2, 3, 5])):
             ln = rng.choice([1, 1, 2, 5, 17, 40, 255])
             name = bytes(rng.choice([rng.randrange(1, 47), rng.randrange(48, 256)]) for _ in range(ln))
+            if rng.random() < 0.2:
+                name = rng.choice(SPECIAL_NAMES) + (rng.choice(SPECIAL_NAMES) if rng.random() < 0.3 else b"")
             k = rng.random()
             if trees and k < 0.55:
                 ents[name] = (0o40000, rng.choice(trees[-3:] + trees))
@@ -76,11 +78,51 @@ def long_path_cases(eng, res, fields, what, rng):
     res.coverage_extra["long_shared_path_cases"] = n
 
 
+# names that mean something to a terminal, a shell, a format string, a Unicode normaliser or a path cleaner — a byte is a byte
+SPECIAL_NAMES = [b"\x1b[31mred-alert\x1b[0m.txt", b"\x1b[2K", b"\x1b[0m", b"\x1b[1;31;40mX", b"\x1b]0;title\x07", b"\x9b31m", b"\x1b[", b"\x1b",
+                 b"e\xcc\x81", b"\xc3\xa9", b"\xe2\x80\xaegpj.exe", b"\xef\xbb\xbfbom", b"\xe2\x80\x8b", b"\xf0\x9f\x98\x80", b"\xc0\xaf", b"\xed\xa0\x80",
+                 b"%41", b"%2F", b"%00", b"&amp;", b"\\x41", b"\\", b"a\\b", b"\r", b"a\rb", b"\n", b"a\nb", b"\t", b" ", b"  ", b" lead", b"trail ", b"trail.",
+                 b"...", b". ", b"CON", b"a\x08\x08", b"\x7f\x7f", b"\x80", b"\xff", b"'", b'"', b'"q"', b"`id`", b"$(id)", b"a;b", b"a|b", b"a&b", b"-rf", b"--", b"~",
+                 b"*", b"?", b"[a]", b"{a,b}", b"#", b"!", b"@", b"=", b"+", b",", b"a:b", b":", b"^", b"^{}", b"@{0}", b".gitmodules", b".GIT", b"git~1"]
+
+
+def special_name_cases(eng, res, fields, what, rng):
+    """Each special name as a file, a directory, a symlink and a gitlink whose path is the longest of its tree by ONE byte (the
+    runner-up is a plain name one byte shorter), so that a name measured after any cleaning, decoding or normalising shows."""
+    n = 0
+    for i, name in enumerate(SPECIAL_NAMES):
+        s = S.Scenario()
+        b = s.add({"kind": "blob", "data": b"x"})
+        leaf = s.add({"kind": "tree", "entries": [(0o100644, b"f", b)]})
+        kinds = [(0o100644, b), (0o40000, leaf), (0o120000, b), (0o160000, bytes(range(1, 21)))]
+        mode, ref = kinds[i % 4]
+        under = 2 if mode == 0o40000 else 0                      # "/f" below a directory
+        plain = b"p" * (len(name) + under - 1) if len(name) + under > 1 else None
+        ents = {name: (mode, ref)}
+        if plain and plain != name:
+            ents[plain] = (0o100644, b)
+        entries = sorted(((m, nm, r) for nm, (m, r) in ents.items()), key=lambda e: e[1] + (b"/" if S.entry_kind(e[0]) == "tree" else b""))
+        d = s.add({"kind": "tree", "entries": entries})
+        top = s.add({"kind": "tree", "entries": [(0o40000, b"dir", d)]})
+        c = s.add({"kind": "commit", "tree": top, "parents": []})
+        s.refs.append((b"refs/heads/main", c))
+        s.compute()
+        SP.one_case(eng, res, s, [], [], [], s.enum_gitlike([c]), fields, "%s: special name %r as the longest path by one byte" % (what, name),
+                    real=(i % 3 == 0 and b"\n" not in name))
+        n += 1
+    res.coverage_extra["special_name_cases"] = n
+
+
+def extra_cases(eng, res, fields, what, rng):
+    long_path_cases(eng, res, fields, what, rng)
+    special_name_cases(eng, res, fields, what, rng)
+
+
 def run(ctx):
     quick = ctx["tier"] == "quick"
     return SP.run_general(
         ctx, SC.FIELD_GROUPS["checkout"], "checkout", n_fake=110 if quick else 2000, n_real=35 if quick else 500,
-        gen=gen_trees, extra_cases=long_path_cases,
+        gen=gen_trees, extra_cases=extra_cases,
         rule=("layered tree DAGs (2-8 levels) with arbitrary sharing, the same subtree twice in one tree, files/exec/symlinks/"
               "gitlinks, empty trees, names of arbitrary non-NUL non-'/' bytes up to 255 long, trees reachable from commits, "
               "annotated tags and lightweight refs; the seven max_path_*/max_expanded_* fields vs the model and vs the "
